@@ -392,6 +392,14 @@ func (c *contentValidator) ValidateRequestAccept(ch *aclrecordproto.AclAccountRe
 	if !acceptIdentity.Equals(record.RequestIdentity) {
 		return ErrIncorrectIdentity
 	}
+	if record.Type != RequestTypeJoin {
+		// only join requests can be accepted; a remove request is approved with AccountRemove
+		return ErrNoSuchRequest
+	}
+	if !c.aclState.Permissions(acceptIdentity).NoPermissions() {
+		// a stale request of an account that has become a member meanwhile must not overwrite its permissions
+		return ErrInsufficientPermissions
+	}
 	if ch.Permissions == aclrecordproto.AclUserPermissions_Owner {
 		return ErrInsufficientPermissions
 	}
